@@ -226,21 +226,21 @@ Section Kernels.
   Definition do_shift_left (pos : handle -> Z) (l : list handle) (x : handle) (amount : Z) : (handle -> Z) * Z :=
     if amount <=? 0 then (pos, 0) else shl_loop pos l x amount None.
 
-  (* shiftRight. NB the two clamps both test the *unclamped* targetEndBit, as in the code. *)
+  (* shiftRight: the shift is bounded by the free space behind the signal (gap to the next signal,
+     trailing space for the last one); no arithmetic on the unchecked amount *)
   Fixpoint shr_loop (pos : handle -> Z) (size : Z) (l : list handle) (x : handle) (amount : Z) : (handle -> Z) * Z :=
     match l with
     | [] => (pos, 0)
     | t :: r =>
       if Nat.eqb x t then
         let ts := pos t in
-        let tgt0 := ts + amount in
-        let te := tgt0 + len t in
-        let tgt1 := if size <? te then size - len t else tgt0 in
-        let tgt := match r with
-                   | n :: _ => if pos n <? te then pos n - len t else tgt1
-                   | [] => tgt1
-                   end in
-        (upd pos t tgt, tgt - ts)
+        let te := ts + len t in
+        let maxs := match r with
+                    | n :: _ => pos n - te
+                    | [] => size - te
+                    end in
+        let d := if maxs <? amount then maxs else amount in
+        (upd pos t (ts + d), d)
       else shr_loop pos size r x amount
     end.
   Definition do_shift_right (pos : handle -> Z) (size : Z) (l : list handle) (x : handle) (amount : Z) : (handle -> Z) * Z :=
